@@ -483,3 +483,235 @@ Proof.
   - exfalso. assert (x = id) by (apply Hall; left). assert (y = id) by (apply Hall; right; left).
     subst. inversion Hnd as [|? ? Hni _]. apply Hni. left.
 Qed.
+
+(* ---------- lookup stability, generic in the matcher ----------
+   [StepOK m D Q]: one step of discipline D either leaves the answer to a query
+   of class Q alone or turns an empty answer into the freshly registered id.
+   Everything downstream (uniqueness of the candidate, an answer once given
+   stays, over whole histories) follows from that alone. *)
+Definition StepOK (m : info -> info -> bool) (D : op -> bool) (Q : info -> Prop) : Prop :=
+  forall r o q, D o = true -> Below r -> Q q ->
+  (forall x, x ∈ reg_find_all m (fst (step r o)) q <-> x ∈ reg_find_all m r q) \/
+  (reg_find_all m r q = [] /\ forall x, x ∈ reg_find_all m (fst (step r o)) q <-> x = serial r).
+
+Definition UniqueG (m : info -> info -> bool) (Q : info -> Prop) (r : reg) : Prop :=
+  forall q x y, Q q -> x ∈ reg_find_all m r q -> y ∈ reg_find_all m r q -> x = y.
+
+Definition answersG (m : info -> info -> bool) (r : reg) (q : info) (id : N) : Prop :=
+  forall x, x ∈ reg_find_all m r q <-> x = id.
+
+Lemma step_UniqueG m D Q r o :
+  StepOK m D Q -> D o = true -> Below r -> UniqueG m Q r -> UniqueG m Q (fst (step r o)).
+Proof.
+  intros HS Hd HB HU q x y HQ Hx Hy.
+  destruct (HS r o q Hd HB HQ) as [H|(_ & H)].
+  - apply (HU q); [exact HQ|apply H; assumption..].
+  - apply H in Hx, Hy. congruence.
+Qed.
+
+Lemma step_answersG m D Q r o q id :
+  StepOK m D Q -> D o = true -> Below r -> Q q -> answersG m r q id -> answersG m (fst (step r o)) q id.
+Proof.
+  intros HS Hd HB HQ HA x. destruct (HS r o q Hd HB HQ) as [H|(Hnil & H)].
+  - rewrite H. apply HA.
+  - exfalso. assert (id ∈ reg_find_all m r q) as Hin by (apply HA; reflexivity).
+    rewrite Hnil in Hin. inversion Hin.
+Qed.
+
+Lemma run_invariants_g m D Q :
+  (forall o, D o = true -> disc o = true) -> StepOK m D Q ->
+  forall ops r,
+  forallb D ops = true -> serial r + N.of_nat (length ops) < two32 ->
+  Below r -> UniqueG m Q r ->
+  Below (fst (run_from r ops)) /\ UniqueG m Q (fst (run_from r ops)) /\
+  serial (fst (run_from r ops)) <= serial r + N.of_nat (length ops) /\
+  forall q id, Q q -> answersG m r q id -> answersG m (fst (run_from r ops)) q id.
+Proof.
+  intros HD HS. induction ops as [|o ops IH]; intros r Hd Hlen HB HU; cbn [length] in Hlen; rewrite ?Nat2N.inj_succ in Hlen.
+  - cbn. split; [exact HB|]. split; [exact HU|]. split; [lia|]. intros q id _ H; exact H.
+  - cbn [forallb] in Hd. apply andb_true_iff in Hd as [Hdo Hd].
+    rewrite run_from_cons. pose proof two32_val as H32.
+    pose proof (step_serial r o) as Hs.
+    assert (serial (fst (step r o)) <= serial r + 1) as Hs'.
+    { rewrite Hs. destruct (fresh r o); [rewrite N.mod_small by lia|]; lia. }
+    destruct (IH (fst (step r o)) Hd) as (B & U & S & A).
+    + lia.
+    + apply step_Below; [apply HD, Hdo|exact HB|lia].
+    + eapply step_UniqueG; eassumption.
+    + cbn [length]. rewrite Nat2N.inj_succ. split; [exact B|]. split; [exact U|]. split; [lia|].
+      intros q id HQ Hq. apply A; [exact HQ|]. eapply step_answersG; eassumption.
+Qed.
+
+Lemma UniqueG_new m Q : UniqueG m Q reg_new.
+Proof. intros q x y _ Hx. apply elem_of_find_all in Hx as (i & Hl & _). cbn in Hl. rewrite lookup_empty in Hl. discriminate. Qed.
+
+Lemma find_or_register_of_answersG m r q id :
+  answersG m r q id -> find_or_register m r q = (id, r) /\ reg_find_all m r q = [id].
+Proof.
+  intros HA. unfold find_or_register.
+  pose proof (NoDup_find_all m r q) as Hnd.
+  assert (Hall : forall x, x ∈ reg_find_all m r q -> x = id) by (intros x Hx; apply HA, Hx).
+  assert (Hin : id ∈ reg_find_all m r q) by (apply HA; reflexivity).
+  destruct (reg_find_all m r q) as [|x [|y rest]].
+  - inversion Hin.
+  - assert (x = id) as -> by (apply Hall; left). split; reflexivity.
+  - exfalso. assert (x = id) by (apply Hall; left). assert (y = id) by (apply Hall; right; left).
+    subst. inversion Hnd as [|? ? Hni _]. apply Hni. left.
+Qed.
+
+(* ---------- lookup stability, router level ---------- *)
+Lemma disc_r_disc units o : disc_r units o = true -> disc o = true.
+Proof. unfold disc_r. intros H. apply andb_true_iff in H as [H _]. exact H. Qed.
+
+Lemma router_match_ident q i j : ident i = ident j -> router_match q i = router_match q j.
+Proof.
+  unfold ident. intros [= H1 H2 H3 H4]. apply bool_ext. rewrite !router_match_spec, H1, H2. reflexivity.
+Qed.
+
+Lemma router_match_query q q' i : ident q = ident q' -> router_match q i = router_match q' i.
+Proof.
+  unfold ident. intros [= H1 H2 H3 H4]. apply bool_ext. rewrite !router_match_spec, H1, H2. reflexivity.
+Qed.
+
+Lemma router_match_meta q i : meta_only i = true -> router_match q i = false.
+Proof.
+  rewrite meta_only_spec. unfold ident. intros [= H1 H2 H3 H4].
+  destruct (router_match q i) eqn:E; [|reflexivity].
+  apply router_match_spec in E as ((p & a & Hp & _) & _). congruence.
+Qed.
+
+Lemma router_match_trans q v i : router_match q v = true -> router_match q i = router_match v i.
+Proof.
+  intros Hv. apply router_match_spec in Hv as (_ & H1 & H2).
+  apply bool_ext. rewrite !router_match_spec, H1, H2. reflexivity.
+Qed.
+
+(* one step under the router discipline, seen from a router query whose parent
+   is a unit id: a peer registration can never answer it (its parent is not a
+   unit id), a router registration answers it exactly when it is the same
+   (parent, address) *)
+Lemma step_find_routers units :
+  StepOK router_match (disc_r units) (fun q => parent_in units q = true).
+Proof.
+  intros r o q Hd HB HQ. pose proof (Below_serial_meta r HB) as Hser.
+  unfold disc_r in Hd. apply andb_true_iff in Hd as [Hd Hd2].
+  destruct o as [|id i|id|p|q'|q'|q'|q']; cbn [step fst disc] in *; try (left; reflexivity).
+  - (* update with descriptive fields only *)
+    left. unfold reg_update_info.
+    destruct (infos r !! id) as [old|] eqn:Eo.
+    + apply (find_all_write_same router_match r id _ q _ old Eo).
+      apply router_match_ident, ident_merge_meta_new, Hd.
+    + apply find_all_write_nomatch; [apply router_match_meta, Hd|rewrite Eo; exact I].
+  - (* find-or-register a peer: its parent is no unit id *)
+    unfold find_or_register in *.
+    destruct (reg_find_all peer_match r q') as [|id' rest] eqn:Ef; [|left; reflexivity].
+    left. cbn [reg_register fst snd]. unfold reg_update_info. cbn [infos serial].
+    set (v := match infos r !! serial r with Some old => info_merge old q' | None => q' end).
+    assert (Hv : ident v = ident q').
+    { subst v. destruct (infos r !! serial r); [apply ident_merge_meta_old, Hser|reflexivity]. }
+    apply find_all_write_nomatch.
+    + apply not_true_false. intros Hm. apply router_match_spec in Hm as (_ & Hp & _).
+      unfold ident in Hv. injection Hv as Hpar _ _ _.
+      unfold parent_in in HQ, Hd2. rewrite <- Hp, Hpar in HQ. rewrite HQ in Hd2. discriminate.
+    + destruct (infos r !! serial r); [apply router_match_meta, Hser|exact I].
+  - (* find-or-register a router *)
+    unfold find_or_register in *.
+    destruct (reg_find_all router_match r q') as [|id' rest] eqn:Ef; [|left; reflexivity].
+    cbn [reg_register fst snd]. unfold reg_update_info. cbn [infos serial].
+    set (v := match infos r !! serial r with Some old => info_merge old q' | None => q' end).
+    assert (Hv : ident v = ident q').
+    { subst v. destruct (infos r !! serial r); [apply ident_merge_meta_old, Hser|reflexivity]. }
+    destruct (router_match q v) eqn:Em.
+    + right. assert (Hnil : reg_find_all router_match r q = []).
+      { rewrite <- Ef. apply find_all_ext. intros i. rewrite (router_match_trans q v i Em).
+        apply router_match_query, Hv. }
+      split; [exact Hnil|]. apply find_all_write_fresh; assumption.
+    + left. apply find_all_write_nomatch; [exact Em|].
+      destruct (infos r !! serial r); [apply router_match_meta, Hser|exact I].
+Qed.
+
+(* find-or-register of a complete router identity gives an id that answers the query *)
+Lemma for_router_answers units r q :
+  disc_r units (OForRouter q) = true -> Below r ->
+  UniqueG router_match (fun q => parent_in units q = true) r ->
+  answersG router_match (snd (find_or_register router_match r q)) q (fst (find_or_register router_match r q)).
+Proof.
+  intros Hd HB HU.
+  assert (HQ : parent_in units q = true /\ router_complete q = true).
+  { unfold disc_r in Hd. apply andb_true_iff in Hd as [_ Hd]. apply andb_true_iff in Hd as [Hc Hp]. split; assumption. }
+  destruct HQ as [HQ Hc].
+  pose proof (step_find_routers units r (OForRouter q) q Hd HB HQ) as H.
+  cbn [step] in H. unfold find_or_register in *.
+  destruct (reg_find_all router_match r q) as [|id rest] eqn:Ef.
+  - cbn [reg_register fst snd] in *. destruct H as [H|(_ & H)]; [|exact H].
+    exfalso. pose proof (Below_serial_meta r HB) as Hser.
+    assert (serial r ∈ reg_find_all router_match (reg_update_info (MkReg ((serial r + 1) mod two32) (infos r)) (serial r) q) q) as Hin.
+    { apply elem_of_find_all. unfold reg_update_info. cbn [infos].
+      eexists. rewrite lookup_insert. split; [reflexivity|].
+      set (v := match infos r !! serial r with Some old => info_merge old q | None => q end).
+      assert (Hv : ident v = ident q).
+      { subst v. destruct (infos r !! serial r); [apply ident_merge_meta_old, Hser|reflexivity]. }
+      rewrite (router_match_ident q v q Hv). apply router_match_spec.
+      unfold router_complete in Hc. rewrite !andb_true_iff, !is_some_true in Hc.
+      destruct Hc as ([p Hp] & [a Ha]). split; eauto 10. }
+    apply H in Hin. inversion Hin.
+  - cbn [fst snd]. intros x. split.
+    + intros Hx. apply (HU q); [exact HQ|exact Hx|]. rewrite Ef. left.
+    + intros ->. rewrite Ef. left.
+Qed.
+
+(* The identifier a router got under (parent unit, address) is the one it gets
+   again after any history that keeps the router discipline, and it is the only
+   candidate *)
+Theorem lookup_stable_router units ops1 q ops2 :
+  forallb (disc_r units) (ops1 ++ OForRouter q :: ops2) = true ->
+  N.of_nat (length (ops1 ++ OForRouter q :: ops2)) < two32 - 1 ->
+  let r1 := fst (run ops1) in
+  let id := fst (find_or_register router_match r1 q) in
+  let r2 := fst (run_from (snd (find_or_register router_match r1 q)) ops2) in
+  find_or_register router_match r2 q = (id, r2) /\ reg_find_routers r2 q = [id].
+Proof.
+  intros Hd Hlen r1 id r2. pose proof two32_val as H32.
+  rewrite forallb_app in Hd. apply andb_true_iff in Hd as [Hd1 Hd2].
+  cbn [forallb] in Hd2. apply andb_true_iff in Hd2 as [Hdq Hd2].
+  rewrite app_length in Hlen. cbn [length] in Hlen. rewrite Nat2N.inj_add, Nat2N.inj_succ in Hlen.
+  pose proof (run_invariants_g router_match (disc_r units) _ (disc_r_disc units) (step_find_routers units)) as RI.
+  destruct (RI ops1 reg_new Hd1) as (B1 & U1 & S1 & _);
+    [cbn [serial reg_new]; lia|apply Below_new|apply UniqueG_new|].
+  fold (run ops1) in *. fold r1 in B1, U1, S1. cbn [serial reg_new] in S1.
+  pose proof (for_router_answers units r1 q Hdq B1 U1) as HA. fold id in HA.
+  assert (HQ : parent_in units q = true).
+  { unfold disc_r in Hdq. apply andb_true_iff in Hdq as [_ Hx]. apply andb_true_iff in Hx as [_ Hx]. exact Hx. }
+  set (ra := snd (find_or_register router_match r1 q)) in *.
+  assert (Hra : ra = fst (step r1 (OForRouter q))).
+  { subst ra. cbn [step]. destruct (find_or_register router_match r1 q); reflexivity. }
+  assert (Bra : Below ra) by (rewrite Hra; apply step_Below; [apply (disc_r_disc units), Hdq|exact B1|lia]).
+  assert (Ura : UniqueG router_match (fun q => parent_in units q = true) ra).
+  { rewrite Hra. eapply step_UniqueG; [apply step_find_routers|exact Hdq|exact B1|exact U1]. }
+  assert (Sra : serial ra <= serial r1 + 1).
+  { rewrite Hra, step_serial. destruct (fresh r1 (OForRouter q)); [rewrite N.mod_small by lia|]; lia. }
+  destruct (RI ops2 ra Hd2) as (_ & _ & _ & A2); [lia|assumption..|].
+  specialize (A2 q id HQ HA). fold r2 in A2.
+  unfold reg_find_routers. apply find_or_register_of_answersG, A2.
+Qed.
+
+(* the history-level form of the discipline: with the unit ids taken to be the
+   parents the history's own router queries name, [disc_hist] is all that is asked *)
+Corollary lookup_stable_router_hist ops1 q ops2 :
+  disc_hist (ops1 ++ OForRouter q :: ops2) = true ->
+  N.of_nat (length (ops1 ++ OForRouter q :: ops2)) < two32 - 1 ->
+  let r1 := fst (run ops1) in
+  let id := fst (find_or_register router_match r1 q) in
+  let r2 := fst (run_from (snd (find_or_register router_match r1 q)) ops2) in
+  find_or_register router_match r2 q = (id, r2) /\ reg_find_routers r2 q = [id].
+Proof. intros Hd. apply (lookup_stable_router (units_of (ops1 ++ OForRouter q :: ops2))), Hd. Qed.
+
+(* the discipline is needed: a peer entry with the same (parent, address)
+   answers a router query - after it, the router query has two candidates *)
+Lemma router_lookup_needs_discipline :
+  let qr := MkInfo None (Some 1) (Some 9) None None None None None in
+  let qp := MkInfo None (Some 1) (Some 9) (Some 65000) (Some 0) None None None in
+  let ops := [ORegister; OForRouter qr; OForPeer qp] in
+  forallb disc ops = true /\ disc_hist ops = false /\
+  length (reg_find_routers (fst (run ops)) qr) = 2%nat.
+Proof. vm_compute. repeat split; reflexivity. Qed.
